@@ -692,7 +692,7 @@ Definition parse_lambda (n : nat) (ts : list tok) : res (argval * list tok) :=
       | _ => syntax_error
       end
     end
-  | _ => PyExc AssertionError            (* assert token.type_ == TokenType.LPAREN *)
+  | _ => syntax_error                    (* expected an arrow function parameter *)
   end.
 
 Definition is_arrow (t : option tok) : bool :=
